@@ -246,6 +246,73 @@ func checkC13(c *hx.Checker) {
 			jobs = append(jobs, job{newModelCase(mb, feed, "outputs", exp, hx.Num, ""), fmt.Sprintf("shapeless-inputs/%v", shp), []string{"multi", "shapeless-declaration"}, true})
 		}
 	}
+	// declaration ORDER and inputs nothing reads: a declaration without shape information (type only / name only / an
+	// empty dim list) listed BEFORE fixed-shape inputs must not loosen them, and a declared input that no node reads and
+	// the graph does not return is required and validated like every other
+	{
+		kinds := []string{"type-only", "no-shape", "rank0", "fixed"}
+		decl := func(n, kind string) *onnx.ValueInfoProto {
+			switch kind {
+			case "type-only":
+				return hx.ValueInfoTypeOnly(n, ref.F32)
+			case "no-shape":
+				return hx.ValueInfoNoShape(n)
+			case "rank0":
+				return hx.ValueInfo(n, ref.F32, hx.FixedDims([]int{}))
+			}
+			return hx.ValueInfo(n, ref.F32, hx.FixedDims([]int{2}))
+		}
+		for _, k0 := range kinds {
+			for _, unusedPos := range []int{-1, 0, 1, 2, 3} { // -1: no unused input; else its position in the input list
+				g := &onnx.GraphProto{Name: "g"}
+				names := []string{"p", "f1", "f2"}
+				kindOf := map[string]string{"p": k0, "f1": "fixed", "f2": "fixed", "u": "fixed"}
+				if unusedPos >= 0 {
+					names = append(append(append([]string{}, names[:unusedPos]...), "u"), names[unusedPos:]...)
+				}
+				for _, n := range names {
+					g.Input = append(g.Input, decl(n, kindOf[n]))
+					if n != "u" {
+						g.Node = append(g.Node, hx.Node("Relu", []string{n}, []string{"y_" + n}, nil))
+						g.Output = append(g.Output, hx.ValueInfoNoShape("y_"+n))
+					}
+				}
+				mb := hx.Marshal(hx.Model(g, 13))
+				goodFeed := func() map[string]*ref.T {
+					f := map[string]*ref.T{}
+					for _, n := range names {
+						f[n] = ref.Distinct(ref.F32, []int{2})
+					}
+					return f
+				}
+				exp := map[string]*ref.T{}
+				for _, n := range names {
+					if n != "u" {
+						e, _ := ref.Unary("Relu", ref.Distinct(ref.F32, []int{2}))
+						exp["y_"+n] = e
+					}
+				}
+				base := fmt.Sprintf("decl-order/first=%s/unused@%d", k0, unusedPos)
+				tg := []string{"multi", "declaration-order", "first=" + k0}
+				if unusedPos >= 0 {
+					tg = append(tg, "unused-input")
+				}
+				jobs = append(jobs, job{newModelCase(mb, goodFeed(), "outputs", exp, hx.Num, ""), base + "/good", tg, true})
+				for _, n := range names {
+					miss := goodFeed()
+					delete(miss, n)
+					jobs = append(jobs, job{newModelCase(mb, miss, "error", nil, hx.Num, ""), base + "/missing-" + n, append(append([]string{}, tg...), "missing-input"), true})
+					if kindOf[n] == "fixed" {
+						for _, bad := range [][]int{{3}, {2, 2}, {}, {1}} {
+							f := goodFeed()
+							f[n] = ref.Distinct(ref.F32, bad)
+							jobs = append(jobs, job{newModelCase(mb, f, "error", nil, hx.Num, ""), fmt.Sprintf("%s/%s-supplied%v", base, n, bad), append(append([]string{}, tg...), "wrong-shape"), true})
+						}
+					}
+				}
+			}
+		}
+	}
 	// an initializer-backed input is validated against its DECLARATION (here [N,3]; the default has 2 rows), not
 	// against the default's shape: other row counts are accepted, a wrong fixed dim or rank is refused
 	{
